@@ -140,3 +140,92 @@ Definition diagnose (c : case) : list (nat * nat * list bool) :=
           end
       | _, _, _, _, _ => []
       end) (seq 0 (List.length (c_cols c)))) (seq 0 (List.length (c_rows c))).
+
+(* ------------------------------------------------------------------ histories on ONE kind object
+   The harness builds a kind, then applies a random interleaving of the generated set_<class>(F) / unset_<class>(F) methods,
+   observations (hash, ==, clone, union/intersection with a fixed other kind, each also against a FRESH kind built from the
+   object's current _features) and comparisons (<=, which strips the object in place).  After every step it records the
+   object's _features.  The model threads the feature set through the same steps. *)
+Inductive hop := HSet (f : N) | HUnset (f : N) | HObs | HLe | HGe | HLeFresh.
+Inductive hobs :=
+| OSet (ok : bool) (feats : list N)                   (* ok = no AssertionError *)
+| OUnset (feats : list N)
+| OObs (feats : list N) (hash : Z)
+       (eq_fresh heq_fresh clone_ok eq_other : bool)  (* k == fresh, hash(k) == hash(fresh), k.clone() == k with equal hash, k == other *)
+       (un itr : rk)                                  (* k.union(other), k.intersection(other) *)
+| OLe (r : option bool) (feats : list N)              (* HLe: k <= other;  HGe: other <= k;  None = KeyError *)
+| OLeFresh (r1 r2 : option bool) (feats : list N).    (* k <= fresh, then fresh' <= k *)
+
+Record hcase := {
+  hc_h : list (N * Z);
+  hc_init : list N * option N;
+  hc_other : list N * option N;
+  hc_ops : list hop;
+  hc_obs : list hobs
+}.
+
+Definition optb_eqb (a b : option bool) : bool :=
+  match a, b with Some x, Some y => Bool.eqb x y | None, None => true | _, _ => false end.
+
+Fixpoint hrun (hf : N -> Z) (ver : option N) (other : kind) (s : fset) (ops : list hop) (obs : list hobs) : bool :=
+  let k := {| k_feats := s; k_ver := ver |} in
+  match ops, obs with
+  | [], [] => true
+  | HSet f :: ops', OSet ok feats :: obs' =>
+      let allowed := match ver with Some v => (added T f <=? v)%N | None => true end in
+      let s' := if allowed then N.setbit s f else s in
+      Bool.eqb allowed ok && (s' =? mask_of feats)%N && hrun hf ver other s' ops' obs'
+  | HUnset f :: ops', OUnset feats :: obs' =>
+      let s' := N.clearbit s f in (s' =? mask_of feats)%N && hrun hf ver other s' ops' obs'
+  | HObs :: ops', OObs feats hash e he c eo un itr :: obs' =>
+      (s =? mask_of feats)%N && (khash T hf k =? hash)%Z && e && he && c
+      && Bool.eqb (keq T k other) eo && rk_ok (union T k other) un && rk_ok (inter T k other) itr
+      && hrun hf ver other s ops' obs'
+  | HLe :: ops', OLe r feats :: obs' =>
+      match le_mut T k other with
+      | Ok (b, fa, _) => optb_eqb (Some b) r && (fa =? mask_of feats)%N && hrun hf ver other fa ops' obs'
+      | KeyErr => optb_eqb None r && (s =? mask_of feats)%N && hrun hf ver other s ops' obs'
+      | AssertErr => false
+      end
+  | HGe :: ops', OLe r feats :: obs' =>
+      match le_mut T other k with
+      | Ok (b, _, fb) => optb_eqb (Some b) r && (fb =? mask_of feats)%N && hrun hf ver other fb ops' obs'
+      | KeyErr => optb_eqb None r && (s =? mask_of feats)%N && hrun hf ver other s ops' obs'
+      | AssertErr => false
+      end
+  | HLeFresh :: ops', OLeFresh r1 r2 feats :: obs' =>
+      match le_mut T k k with
+      | Ok (b1, fa, _) =>
+          let k' := {| k_feats := fa; k_ver := ver |} in
+          match le_mut T k' k' with
+          | Ok (b2, _, fb) => optb_eqb (Some b1) r1 && optb_eqb (Some b2) r2 && b1 && b2
+                              && (fb =? mask_of feats)%N && hrun hf ver other fb ops' obs'
+          | _ => false
+          end
+      | _ => false
+      end
+  | _, _ => false
+  end.
+
+Definition hok (c : hcase) : bool :=
+  let hf := fun f => match assoc f (hc_h c) with Some z => z | None => 0%Z end in
+  wf T (mk (hc_init c)) && wf T (mk (hc_other c))
+  && hrun hf (snd (hc_init c)) (mk (hc_other c)) (mask_of (fst (hc_init c))) (hc_ops c) (hc_obs c).
+
+(* index of the first step on which model and implementation differ (for the replay) *)
+Fixpoint hfirst (hf : N -> Z) (ver : option N) (other : kind) (s : fset) (ops : list hop) (obs : list hobs) (i : nat) : nat :=
+  match ops, obs with
+  | o :: ops', b :: obs' =>
+      if hrun hf ver other s [o] [b] then
+        let s' := match o, b with
+                  | HSet _, OSet _ feats | HUnset _, OUnset feats | HObs, OObs feats _ _ _ _ _ _ _
+                  | HLe, OLe _ feats | HGe, OLe _ feats | HLeFresh, OLeFresh _ _ feats => mask_of feats
+                  | _, _ => s
+                  end in
+        hfirst hf ver other s' ops' obs' (S i)
+      else i
+  | _, _ => i
+  end.
+Definition hdiag (c : hcase) : nat :=
+  let hf := fun f => match assoc f (hc_h c) with Some z => z | None => 0%Z end in
+  hfirst hf (snd (hc_init c)) (mk (hc_other c)) (mask_of (fst (hc_init c))) (hc_ops c) (hc_obs c) 0.
